@@ -247,13 +247,7 @@ def answer (c : Cfg F) (op : String) (args : List String) : String :=
     | some t => fmtBool (decide (t.2.2 = 0)) | none => "bad-op"
   | "eqraw", [t, u] => match parseTriple (F := F) t, parseTriple (F := F) u with
     | some (x1, y1, z1), some (x2, y2, z2) =>
-      let id1 := decide (z1 = 0)
-      let id2 := decide (z2 = 0)
-      let cross :=
-        if c.jac then
-          decide (x1 * (z2 * z2) = x2 * (z1 * z1)) && decide (y1 * (z2 * z2) * z2 = y2 * (z1 * z1) * z1)
-        else decide (x1 * z2 = x2 * z1) && decide (y1 * z2 = y2 * z1)
-      fmtBool ((id1 && id2) || (!id1 && !id2 && cross)) ++ " " ++
+      fmtBool (if c.jac then jacCtEq x1 y1 z1 x2 y2 z2 else homCtEq x1 y1 z1 x2 y2 z2) ++ " " ++
         fmtBool (decide (toAff c (x1, y1, z1) = toAff c (x2, y2, z2)))
     | _, _ => "bad-op"
   | "jaccoords", [t] => match parseTriple (F := F) t with
